@@ -135,9 +135,10 @@ class Program:
         self.raw = d
         self.source = path
         from .renames import normalise
-        from .inline import inline_new_helpers
+        from .inline import inline_new_helpers, splice_combinator_closures
         self.rename_notes = normalise(d)
         self.rename_notes += inline_new_helpers(d)
+        self.rename_notes += splice_combinator_closures(d)
         self.crate = d["crate"]
         self.nonce = d.get("nonce")
         self.config = d.get("config")
